@@ -207,7 +207,19 @@ class Check:
             if o.status == "failed":
                 self._handle_failed(o)
             elif o.status == "undecided":
-                self.undecided.append(o.name + " :: " + o.detail[:200])
+                # no solver verdict: a bounded native search of the same contract may still find a failing input
+                rep = None
+                if o.replayer is not None:
+                    try:
+                        rep = o.replayer(o.model or {})
+                    except Exception as e:
+                        rep = {"failed": False, "description": f"replayer crashed: {type(e).__name__}: {e}"}
+                if rep and rep.get("failed"):
+                    o.status = "failed"
+                    o.detail = "no solver verdict (" + o.detail[:200] + "); native search of the same contract fails"
+                    self._handle_failed(o)
+                else:
+                    self.undecided.append(o.name + " :: " + o.detail[:200])
             elif o.status == "error":
                 self.errors.append(f"{o.name}: {o.detail[:600]}")
 
@@ -481,7 +493,7 @@ def _instantiate(assertions, bound, extent_vars):
     import z3
     out = []
     for a in assertions:
-        if z3.is_quantifier(a) and a.is_forall():
+        if z3.is_quantifier(a) and a.is_forall() and all(a.var_sort(i_) == z3.IntSort() for i_ in range(a.num_vars())):
             n = a.num_vars()
             for vals in itertools.product(range(bound + 1), repeat=n):
                 # de Bruijn: variable 0 is the *last* bound variable
